@@ -2,7 +2,7 @@
     Subject: Model/Stream.v (hand model of FileReader; its seek arithmetic is Gen/Plan.v, regenerated from
     io/fileio.py), tied to the implementation by the correspondence run of tools/harness/props/c02.py. *)
 From Coq Require Import ZArith List Bool.
-Require Import SPP.Base.Rt SPP.Gen.Plan SPP.Model.Stream SPP.Proofs.C02_stream.
+Require Import SPP.Base.Rt SPP.Gen.Plan SPP.Model.Stream SPP.Proofs.C02_stream SPP.Proofs.C02_items.
 Import ListNotations.
 Open Scope Z_scope.
 
@@ -42,6 +42,28 @@ Theorem C02_read_block : forall fs nchans nsamples start nsamps,
     then OBytes (slice (flat fs) (start * nchans) (nchans * nsamps)) else OErr ValueError.
 Proof. exact read_block_spec. Qed.
 Print Assumptions C02_read_block.
+
+(** 16- and 32-bit samples (items of isz = 2 or 4 bytes; any isz >= 1): on a stream whose data sections hold whole items, a counted read
+    of n items at an item-aligned position returns exactly the n*isz bytes of the flat array (crossing any number of file
+    boundaries) or raises when fewer exist, and an absolute seek to an aligned offset lands aligned *)
+Theorem C02_cread_items : forall fs isz s n, 0 < isz -> whole_items isz fs -> InvA isz fs s -> 0 <= n ->
+  (absp fs s + n * isz <= total fs ->
+     exists s', cread fs isz s n = (s', OBytes (slice (flat fs) (absp fs s) (n * isz))) /\ InvA isz fs s' /\ absp fs s' = absp fs s + n * isz) /\
+  (absp fs s + n * isz > total fs ->
+     exists s', cread fs isz s n = (s', OErr ValueError) /\ InvA isz fs s' /\ absp fs s' = total fs).
+Proof. exact cread_items_spec. Qed.
+Print Assumptions C02_cread_items.
+
+Theorem C02_seek_aligned : forall fs isz s off, 0 < isz -> whole_items isz fs -> 0 <= off < total fs -> off mod isz = 0 ->
+  exists s', seek_set_op fs s off = (s', OUnit) /\ InvA isz fs s' /\ absp fs s' = off.
+Proof. exact seek_set_aligned. Qed.
+Print Assumptions C02_seek_aligned.
+
+Example C02_example_items :
+  let fs := [mkfile [224] [1; 0; 2; 0]; mkfile [225; 225] [3; 0]; mkfile [226] [4; 0; 5; 0]] in
+  whole_items 2 fs /\
+  run fs 2 (init fs) [SeekSet 2; Cread 3; Cread 2] = [(OUnit, 2); (OBytes [2; 0; 3; 0; 4; 0], 8); (OErr ValueError, 10)].
+Proof. vm_compute. repeat split; try discriminate; repeat constructor. Qed.
 
 (** non-vacuity: three files (one with an empty data section), a history crossing both boundaries *)
 Example C02_example :
